@@ -69,6 +69,47 @@ def run(ctx):
     for name, f, x in c09.catalogue(ctx, rng, cd0)[:16]:
         if name.startswith("py"):
             frames.append((name, f, x))
+    # (e) dictionary frames: structurally valid dictionaries with three distinct repeat offsets (built with the entropy writers of the
+    #     current tree), inputs that START with a match at the k-th repeat offset, and ordinary inputs reusing dictionary content
+    from . import c08
+    mkexe = core.build_harness("c08_mkdict", ["c08_mkdict.c"], variant="o1", extra_flags=["-w"])
+    dlines, dinfo = [], {}
+    for j in range(3 if ctx.quick else 10):
+        content = codec.gen_input(rng, rng.choice(["text", "rep3"]), rng.choice([600, 2000, 3000]))
+        reps = rng.sample(range(5, len(content) - 1), 3)
+        dinfo["dd%d" % j] = (reps, content)
+        dlines.append("M dd%d %d %s %s %s %s %d,%d,%d %s" % (j, 1000 + j, "11:" + ",".join(["3"] * 100 + ["2"] * 100 + ["1"] * 56),
+                                                             c08.rand_norm(rng, 32, 8, full=True), c08.rand_norm(rng, 53, 9, full=True), c08.rand_norm(rng, 36, 9, full=True),
+                                                             reps[0], reps[1], reps[2], codec.hx(content)))
+    mout, merrs = codec._run_chunks(mkexe, dlines, core.NCPU, 600)
+    dframes = []      # (name, dict bytes, frame, x)
+    creq = []
+    for name, (reps, content) in dinfo.items():
+        r = mout.get(name, "ERR").split(" ")
+        if r[0] != "OK":
+            continue
+        dbytes = bytes.fromhex(r[1])
+        for k in range(3):
+            period = content[len(content) - reps[k]:]
+            x = (period * (40 // len(period) + 2))[:40] + codec.gen_input(rng, "text", 300)
+            for lvl in (19, 13, 3):
+                creq.append(("%s.r%d.l%d" % (name, k, lvl), dbytes, x, lvl))
+        creq.append(("%s.mix" % name, dbytes, content[100:400] + codec.gen_input(rng, "text", 2000) + content[-300:], 3))
+    cout, cerrs = cd0.impl(["C %s usingDict:%d - - %s %s" % (i, lvl, codec.hx(db), codec.hx(x)) for i, db, x, lvl in creq])
+    for i, db, x, lvl in creq:
+        r = codec.parse_ok(cout.get(i, "ERR missing"))
+        if r[0] == "OK":
+            dframes.append(("dict " + i, db, r[1], x))
+    dres = cd0.model([("g%d" % i, "nostrict", db, f) for i, (name, db, f, x) in enumerate(dframes)])
+    dvalid = []
+    for i, (name, db, f, x) in enumerate(dframes):
+        m = dres.get("g%d" % i, ("ERR", "missing", -1))
+        if m[0] == "OK" and m[1] == x:
+            dvalid.append((i, name, db, f, x, codec.trace_signature(codec.parse_trace(m[2]))))
+        elif m[0] == "OK":
+            ctx.violation(dict(source=name, dict_hex=db.hex()[:40000], frame_hex=f.hex()[:40000]), what="R decodes a dictionary frame to other bytes than the compressor's input")
+    ctx.notes["dict_frames_R_accepts"] = len(dvalid)
+    DPATHS = ["usingDict", "ddict", "ddictwarm", "ddictref", "loaddict", "multiddict", "stream:5:3", "continue"]
     # R first: only frames R accepts are in the quantifier
     mres = cd0.model([("f%d" % i, "nostrict", None, f) for i, (name, f, x) in enumerate(frames)])
     valid = []
@@ -97,10 +138,29 @@ def run(ctx):
         for i, name, f, y, sig in valid:
             for pth, fl in PATHS:
                 lines.append("D f%d|%s|%s %s %s - %s %d" % (i, pth, fl, pth, fl, codec.hx(f), len(y) + 8))
+        for i, name, db, f, y, sig in dvalid:
+            for pth in DPATHS:
+                lines.append("D g%d|%s|- %s - %s %s %d" % (i, pth, pth, codec.hx(db), codec.hx(f), len(y) + 8))
         out, errs = cd.impl(lines)
         if errs:
             ctx.violation(dict(kind="harness-crash", variant=v, detail=errs[:2]), what="zv_codec (%s build) crashed while decoding valid frames: %r" % (v, errs[0],))
         nok = 0
+        dbyid = {i: (name, db, f, y, sig) for i, name, db, f, y, sig in dvalid}
+        for key, rest in list(out.items()):
+            if not key.startswith("g"):
+                continue
+            del out[key]
+            fid, pth, fl = key.split("|")
+            name, db, f, y, sig = dbyid[int(fid[1:])]
+            r = codec.parse_ok(rest)
+            if r[0] != "OK" or r[1] != y:
+                ctx.violation(dict(variant=v, path=pth, source=name, dict_hex=db.hex()[:60000], frame_hex=f.hex()[:60000], expected_hex=y.hex()[:20000],
+                                   result=(r[1] if r[0] == "ERR" else "content differs")),
+                              what="valid dictionary frame (accepted by R, %s) is %s by libzstd build '%s' dictionary path %s" % (
+                                  name, "rejected (%s)" % r[1] if r[0] == "ERR" else "decoded to different bytes", v, pth))
+            else:
+                nok += 1
+            ctx.count((sig, "dict", v, pth), nontrivial=True)
         byid = {i: (name, f, y, sig) for i, name, f, y, sig in valid}
         for key, rest in out.items():
             fid, pth, fl = key.split("|")
